@@ -34,6 +34,9 @@ type FaultReader struct {
 	// ErrWithData: the failing Read hands out the last bytes before offset K TOGETHER with the
 	// error (n > 0 and err != nil in one call), as the io.Reader contract allows
 	ErrWithData bool
+	// Transient: the error at offset K is returned ONCE (a deadline its owner then extends, an
+	// interrupted read); the Reads that follow deliver the rest of the document and EOF
+	Transient bool
 	pos     int
 	Failed  int // number of times Err was returned
 	Reads   int
@@ -68,6 +71,9 @@ func (f *FaultReader) Read(p []byte) (int, error) {
 			e := f.Err
 			if e == nil {
 				e = ErrReader
+			}
+			if f.Transient {
+				f.K = -1 // from now on the reader is healthy
 			}
 			return 0, e
 		}
